@@ -68,6 +68,15 @@ theorem C08_gen_header_verdicts :
       ("pi-xml", "header-reached"), ("pi-XML", "procinst"), ("pi-stylesheet", "procinst"),
       ("pi-x", "procinst"), ("directive", "directive")] := by decide
 
+/-- **every `SetCloseDeadline` call replaces the input context** — tied to the source: for every
+sequence of up to three calls (a time in the future, in the past, in the near future followed by
+a wait) made by the handler of a real session, whether the session then gives up with the deadline
+error before the next element (regenerated on every run, 40 rows) is the model's `expiredAfter` -/
+theorem C08_gen_deadlines :
+    ∃ t, Generated.C08.deadlineVerdicts = some t ∧ t.length = 40 ∧
+      ∀ r ∈ t, expiredAfter r.1 false = r.2 := by
+  refine ⟨_, rfl, by decide, by decide⟩
+
 /-! ### whatever the output state is -/
 
 /-- a step that does not begin with an element's start tag — every stream-level construct at
